@@ -49,15 +49,17 @@ Definition uvar_se (xs : list R) (s e : nat) : R := uvar (slice s e xs).
 
 (** generic scores built from an interval cost *)
 Definition change_score (C : nat -> nat -> R) (s k e : nat) : R := C s e - C s k - C k e.
-Definition local_score (C : nat -> nat -> R) (Cpool : nat -> nat -> nat -> nat -> R)
-           (s i j e : nat) : R := C s e - C i j - Cpool s i j e.
+(** local (4-point) anomaly score of a list cost [F], the pooled surroundings
+    (before ++ after) being treated as one list *)
+Definition local_listscore (F : list R -> R) (whole inner before after : list R) : R :=
+  F whole - F inner - F (before ++ after).
 
 (* ------------------------------------------------------------------------- *)
 (** * Tactics *)
 
 Ltac nz := repeat split; first [assumption | lra | nra | (apply not_0_INR; lia)].
 (** close an equation by algebra, going under a function head only when needed *)
-Ltac fin := solve [ reflexivity | lra | field; nz | progress f_equal; fin ].
+Ltac fin := solve [ reflexivity | lra | (unfold Rdiv; ring) | field; nz | progress f_equal; fin ].
 (** make the argument of a non-algebraic head ([Rmax], [sqrt], [ln], [Rabs]) on the
     left literally equal to a provably equal one on the right (inner heads first) *)
 Ltac align_head :=
@@ -195,10 +197,10 @@ Proof.
   kern_eq.
 Qed.
 
-Lemma gvar_fixed_slice mu v s e : (s < e <= length xs)%nat -> v <> 0 ->
+Lemma gvar_fixed_slice mu v s e : (s < e <= length xs)%nat ->
   gaussian_var_cost_fixed_R (P1 xs) (P2 xs) mu v s e = gfixL mu v (slice s e xs).
 Proof.
-  intros H Hv. unfold gaussian_var_cost_fixed_R, gfixL, l2fixL, P1, P2. split_at s e.
+  intros H. unfold gaussian_var_cost_fixed_R, gfixL, l2fixL, P1, P2. split_at s e.
   rewrite slice_length by lia.
   assert (Hn : 0 < INR (e - s)) by (apply lt_0_INR; lia). kern_eq.
 Qed.
@@ -329,14 +331,28 @@ Proof.
   intros HC H He. unfold change_score. rewrite !HC by lia. reflexivity.
 Qed.
 
-Lemma local_score_ext (C C' : nat -> nat -> R) (Cp Cp' : nat -> nat -> nat -> nat -> R) n s i j e :
-  (forall a b, (a < b <= n)%nat -> C' a b = C a b) ->
-  Cp' s i j e = Cp s i j e ->
-  (s < i < j)%nat -> (j < e <= n)%nat ->
-  local_score C' Cp' s i j e = local_score C Cp s i j e.
+(** local anomaly score of any shift-invariant list cost *)
+Lemma local_listscore_shift (F : list R -> R) c whole inner before after :
+  (forall l, (0 < length l)%nat -> F (shift c l) = F l) ->
+  (0 < length whole)%nat -> (0 < length inner)%nat -> (0 < length (before ++ after))%nat ->
+  local_listscore F (shift c whole) (shift c inner) (shift c before) (shift c after)
+  = local_listscore F whole inner before after.
 Proof.
-  intros HC HP H He. unfold local_score. rewrite !HC by lia. rewrite HP. reflexivity.
+  intros HF Hw Hi Ho. unfold local_listscore. rewrite <- shift_app.
+  now rewrite !HF by assumption.
 Qed.
+
+Corollary l2_local_score_shift c whole inner before after :
+  (0 < length whole)%nat -> (0 < length inner)%nat -> (0 < length (before ++ after))%nat ->
+  local_listscore l2L (shift c whole) (shift c inner) (shift c before) (shift c after)
+  = local_listscore l2L whole inner before after.
+Proof. apply local_listscore_shift. intros l Hl. now apply l2L_shift. Qed.
+
+Corollary gvar_local_score_shift c whole inner before after :
+  (0 < length whole)%nat -> (0 < length inner)%nat -> (0 < length (before ++ after))%nat ->
+  local_listscore gvarL (shift c whole) (shift c inner) (shift c before) (shift c after)
+  = local_listscore gvarL whole inner before after.
+Proof. apply local_listscore_shift. intros l Hl. now apply gvarL_shift. Qed.
 
 Corollary l2_change_score_shift c xs s k e : (s < k < e)%nat -> (e <= length xs)%nat ->
   change_score (l2_cost_optim_R (P1 (shift c xs)) (P2 (shift c xs))) s k e
@@ -415,11 +431,11 @@ Proof.
   rewrite slice_rev by mirror. apply gvarL_rev.
 Qed.
 
-Theorem gvar_fixed_rev mu v s e : (s < e <= n)%nat -> v <> 0 ->
+Theorem gvar_fixed_rev mu v s e : (s < e <= n)%nat ->
   gaussian_var_cost_fixed_R (P1 (rev xs)) (P2 (rev xs)) mu v (n - e) (n - s)
   = gaussian_var_cost_fixed_R (P1 xs) (P2 xs) mu v s e.
 Proof.
-  intros H Hv. rewrite !gvar_fixed_slice by (try assumption; mirror).
+  intros H. rewrite !gvar_fixed_slice by mirror.
   rewrite slice_rev by mirror. apply gfixL_rev.
 Qed.
 
@@ -555,6 +571,14 @@ Proof.
   rewrite ln_2PI_scale by assumption. ring.
 Qed.
 
+Lemma gcost_shift c l : gcost (shift c l) = gcost l.
+Proof.
+  destruct l as [|x t]; [reflexivity|].
+  assert (Hl : (0 < length (x :: t))%nat) by (simpl; lia).
+  unfold gcost. rewrite <- !uvar_varR by (rewrite ?shift_length; assumption).
+  now rewrite uvar_shift, shift_length.
+Qed.
+
 Theorem gcost_scale a l : 0 < a -> 0 < varR l ->
   gcost (scale a l) = gcost l + INR (length l) * ln (a ^ 2).
 Proof. intros Ha Hv. apply gcost_scale_nz; [lra | assumption]. Qed.
@@ -575,7 +599,7 @@ Qed.
 
 (** local (4-point) anomaly score with the pooled surroundings treated as a list *)
 Definition local_gcost (whole inner before after : list R) : R :=
-  gcost whole - gcost inner - gcost (before ++ after).
+  local_listscore gcost whole inner before after.
 
 Theorem local_gcost_scale a whole inner before after :
   0 < a ->
@@ -584,10 +608,15 @@ Theorem local_gcost_scale a whole inner before after :
   local_gcost (scale a whole) (scale a inner) (scale a before) (scale a after)
   = local_gcost whole inner before after.
 Proof.
-  intros Ha Hlen Hw Hi Ho. unfold local_gcost.
+  intros Ha Hlen Hw Hi Ho. unfold local_gcost, local_listscore.
   rewrite <- scale_app. rewrite !gcost_scale by assumption.
   rewrite Hlen, plus_INR. ring.
 Qed.
+
+Theorem local_gcost_shift c whole inner before after :
+  local_gcost (shift c whole) (shift c inner) (shift c before) (shift c after)
+  = local_gcost whole inner before after.
+Proof. unfold local_gcost, local_listscore. rewrite <- shift_app. now rewrite !gcost_shift. Qed.
 
 (** same statement on the slices of a column: whole = [s,e), inner = [i,j),
     before = [s,i), after = [j,e) *)
@@ -681,6 +710,13 @@ Proof.
 Qed.
 
 (* ------------------------------------------------------------------------- *)
+(** NOTE on axioms.  In Coq 8.16.1 the standard-library function [ln] itself depends on
+    [Classical_Prop.classic] (through [Rpower]/IVT), so every statement that mentions the
+    generated Gaussian kernels inherits it from its STATEMENT, not from the proofs here
+    (see the first two lines printed below).  The theorems about kernels without [ln]
+    (L2, CUSUM, permutation) use only the axioms of the classical real numbers. *)
+Print Assumptions ln.
+Print Assumptions gaussian_var_cost_optim_R.
 Print Assumptions l2_optim_shift.
 Print Assumptions gvar_optim_shift.
 Print Assumptions cusum_shift.
